@@ -98,7 +98,7 @@ def _purge_modules():
 
 
 def _exec_file(path: Path, keep):
-    text = path.read_text("utf-8")
+    text = path.read_bytes().decode("utf-8-sig")  # like the import system: BOM-aware, any newline style
     code = compile(text, str(path), "exec")
     keep.append(code)  # snapshot keys use id(code): never let a code object be freed during a run
     g = {"__name__": path.stem, "__file__": str(path)}
